@@ -2,7 +2,7 @@ SPECIFICATION Spec
 CONSTANTS K = 2
           KO = 0
           W = 1
-          Ext = FALSE
-          ValSet = "plain"
+          Ext = TRUE
+          ValSet = "ext"
 INVARIANTS Emit EmitVals
 CHECK_DEADLOCK FALSE
